@@ -98,6 +98,18 @@ add("expansion-assumed-after-whole-document","C07","spec.go","\tprobe, err := de
 add("referenced-default-not-resolved","C18","object_validator.go","\t\tif pSchema.Ref.String() != \"\" {\n","\t\tif false && pSchema.Ref.String() != \"\" {\n","REF-BLIND:(*objectValidator).validatePropertiesSchema:Default", quick=False)
 add("descent-without-visited-set","C14","values.go","\t\tpair := [2]uintptr{av.Pointer(), bv.Pointer()}\n\t\tif _, again := visiting[pair]; again {\n\t\t\treturn true\n\t\t}\n\t\tvisiting[pair] = struct{}{}\n\t\tfor i := 0; i < av.Len(); i++ {","\t\tfor i := 0; i < av.Len(); i++ {","DATA-WALK:valuesEqualVisiting:visited", quick=False)
 add("expansion-outside-the-panic-boundary","C07","spec.go","\treturn expandSchemaAgainst(&probe, s.spec.Spec()) == nil","\treturn spec.ExpandSchema(&probe, s.spec.Spec(), nil) == nil","PANIC-BOUNDARY:(*SpecValidator).canValidateAgainst", quick=False)
+add("element-equality-loses-shortcut","C14","values.go","func valuesEqualVisiting(a, b interface{}, visiting map[[2]uintptr]struct{}) bool {\n\tif reflect.DeepEqual(a, b) {\n\t\treturn true\n\t}\n","func valuesEqualVisiting(a, b interface{}, visiting map[[2]uintptr]struct{}) bool {\n\tif reflect.DeepEqual(a, b) {\n\t\treturn false\n\t}\n","EQUAL-TABLE:valuesEqual:scalars", quick=False)
+add("invalid-byte-comparison-flipped","C14","values.go","\t\t\tif s[:ssize] != t[:tsize] {\n\t\t\t\treturn false","\t\t\tif s[:ssize] == t[:tsize] {\n\t\t\t\treturn false","PURE:equality:polarity", quick=False)
+add("exemption-predicate-widened","C03","object_validator.go","(p[len(p)-1] == swaggerExample || p[len(p)-1] == swaggerExamples) && p[len(p)-2] != swaggerExample","(p[len(p)-1] == swaggerExample || p[len(p)-1] != swaggerExamples) && p[len(p)-2] != swaggerExample","GUARD-SCOPE:exemption:isExample:exact", quick=False)
+add("path-and-in-change-places","C17","values.go","\t\treturn errors.InvalidType(path, in, format, data)","\t\treturn errors.InvalidType(in, path, format, data)","ARG-ROLE:FormatOf:InvalidType", quick=False)
+add("format-handed-over-as-in","C16","validator.go","\t\tp.param.Name,\n\t\tp.param.In,\n\t\tp.param.Format,\n\t\tp.KnownFormats,","\t\tp.param.Name,\n\t\tp.param.Format,\n\t\tp.param.In,\n\t\tp.KnownFormats,","ARG-ROLE:(*ParamValidator).formatValidator:newFormatValidator", quick=False)
+add("default-skipped-when-reference-resolves","C18","object_validator.go","\t\t\tif err := spec.ExpandSchema(pSchema, o.Root, nil); err != nil {\n\t\t\t\tcontinue","\t\t\tif err := spec.ExpandSchema(pSchema, o.Root, nil); err == nil {\n\t\t\t\tcontinue","REF-BLIND:(*objectValidator).validatePropertiesSchema:Default", quick=False)
+add("append-keeps-both-representations","C18","result.go","\t\t\ts.multiple = append(append(t, s.one), other.multiple...)\n\t\t}\n\t\ts.one = nil\n","\t\t\ts.multiple = append(append(t, s.one), other.multiple...)\n\t\t}\n","SCHEMATA-MODEL:Append:total")
+add("clone-shares-schema-objects","C20","result.go","\t\t\tsp := new(spec.Schema)\n\t\t\t*sp = *s.multiple[idx]\n\t\t\tclone.multiple[idx] = sp","\t\t\tclone.multiple[idx] = s.multiple[idx]","SCHEMATA-MODEL:Clone:faithful", quick=False)
+add("mapindex-without-key-type-test","C14","values.go","\t\tif av.Type().Key() != bv.Type().Key() || av.IsNil() != bv.IsNil() || av.Len() != bv.Len() {","\t\tif av.IsNil() != bv.IsNil() || av.Len() != bv.Len() {","D-DYN:valuesEqualVisiting:reflect.Value.MapIndex with a key", quick=False)
+add("number-read-despite-error","C14","values.go","\tif i, err := n.Int64(); err == nil {\n\t\treturn i\n\t}","\tif i, err := n.Int64(); err != nil {\n\t\treturn i\n\t}","ERR-VALUE:numberOf:json.Number.Int64", quick=False)
+add("walk-stops-after-first-parent","C03","spec.go","\t\t\t\tancs = append(ancs, anc...)\n\t\t\t\tif len(ancs) > 0 {","\t\t\t\tancs = append(ancs, anc...)\n\t\t\t\tif len(ancs) >= 0 {","DEAD-TAIL:(*SpecValidator).validateCircularAncestry:constant-exit", quick=False)
+add("multiple-of-scaled","C13","values.go","\t\tmult = 1 / factor * data","\t\tmult = 2 / factor * data","MULTIPLE-TABLE:exact")
 json.dump(C, open('/verif/tables/controls.json','w'), indent=1)
 import os
 for c in C:
